@@ -3,7 +3,7 @@ import math
 import numpy as np
 import scipy as sp
 
-from pygradflow.linear_solver import LinearSolver
+from pygradflow.linear_solver import LinearSolver, LinearSolverError
 from pygradflow.log import logger
 from pygradflow.params import Params
 
@@ -91,7 +91,10 @@ class ConditionEstimator:
             yfac *= ynorm
             yprod /= ynorm
 
-            assert y.dot(yprod) > 0.0
+            # Only guaranteed for exact solves, iterative linear
+            # solvers can violate it: no estimate in this case
+            if not y.dot(yprod) > 0.0:
+                raise LinearSolverError("Condition estimate failed")
 
         pow_fac = 1.0 / (2.0 * num_its)
 
